@@ -75,6 +75,9 @@ uint8_t * jls_mrb_alloc(struct jls_mrb_s * self, uint32_t size) {
             p = self->buf;
         } else if (head == tail) {
             // Big item, but buffer is empty.  Reset pointers to make room.
+            if ((size + 4 + 4 + 1) >= self->buf_size) {
+                return NULL;  // does not fit, even in an empty buffer
+            }
             self->head = 0;
             self->tail = 0;
             p = self->buf;
